@@ -67,7 +67,8 @@ def run(chk: Check) -> int:
     # each point, both raise settings, all runner kinds; every schedule (subsets, one order) for each
     exh = {}
     if chk.quick:
-        plans = [(kind, 2, 2, R, rz) for kind in I.KINDS for R in (0, 1) for rz in (True, False)]
+        plans = [(kind, nt, T, R, rz) for kind in I.KINDS for (nt, T, R) in ((2, 2, 0), (2, 2, 1), (2, 3, 0), (3, 2, 1), (2, 2, 2))
+                 for rz in (True, False)]
     else:
         plans = [(kind, nt, T, R, rz) for kind in I.KINDS for nt in (1, 2, 3) for T in (1, 2, 3)
                  for R in (0, 1, 2) for rz in (True, False) if (R + 1) * T <= 6 and nt <= T + 1]
